@@ -143,13 +143,13 @@ theorem mem_expand_un {g : Grammar} {s : Sent} {cfg : Cfg} {chart : List Item} {
 theorem mem_expand_binL {g : Grammar} {s : Sent} {cfg : Cfg} {chart : List Item} {it o x : Item}
     (ho : o ∈ chart) (hadj : o.start = it.stop) (hx : x ∈ binaryItems g s it o) :
     x ∈ expand g s cfg chart it := by
-  simp only [expand, List.mem_append, List.mem_flatMap, List.mem_filter, decide_eq_true_eq]
+  simp only [expand, List.mem_append, List.mem_flatMap, mem_neighbours, beq_iff_eq]
   exact Or.inl (Or.inr ⟨o, ⟨ho, hadj⟩, hx⟩)
 
 theorem mem_expand_binR {g : Grammar} {s : Sent} {cfg : Cfg} {chart : List Item} {it o x : Item}
     (ho : o ∈ chart) (hadj : o.stop = it.start) (hx : x ∈ binaryItems g s o it) :
     x ∈ expand g s cfg chart it := by
-  simp only [expand, List.mem_append, List.mem_flatMap, List.mem_filter, decide_eq_true_eq]
+  simp only [expand, List.mem_append, List.mem_flatMap, mem_neighbours, beq_iff_eq]
   exact Or.inr ⟨o, ⟨ho, hadj⟩, hx⟩
 
 theorem unaryItems_mem {g : Grammar} {cfg : Cfg} {it : Item} {c rid : Nat}
@@ -194,8 +194,9 @@ structure Hist (g : Grammar) (s : Sent) (cfg : Cfg) (st : St) : Prop where
   un : ∀ c ∈ st.chart, (s.n = 1 ∨ c.len ≠ s.n) → ∀ x ∈ unaryItems g cfg c, Pushed st x
   bin : ∀ l ∈ st.chart, ∀ r ∈ st.chart, r.start = l.stop → ∀ x ∈ binaryItems g s l r, Pushed st x
 
-theorem Hist.init (g : Grammar) (s : Sent) (cfg : Cfg) : Hist g s cfg (init s cfg) where
-  leaf := fun _ h => Or.inl h
+theorem Hist.init {pick : Pick} (hp : PickOK pick) (g : Grammar) (s : Sent) (cfg : Cfg) :
+    Hist g s cfg (init pick s cfg) where
+  leaf := fun _ h => Or.inl (hp.mem_push_nil.2 h)
   drop := fun _ h => by cases h
   fin := fun _ h => by cases h
   un := fun _ h => by cases h
@@ -261,15 +262,15 @@ theorem Hist.step {pick : Pick} {g : Grammar} {s : Sent} {cfg : Cfg} {st st' : S
   · exact h.step_same hperm (fun _ hy => hy) rfl rfl (fun hf' => by rw [hf] at hf'; cases hf')
   · exact h.step_same hperm (fun _ hy => hy) rfl rfl
       (fun _ => dropped_le hu hok hprio hitmem hf hc.2)
-  · have hag : ∀ y ∈ rest, y ∈ expand g s cfg st.chart it ++ rest :=
-      fun y hy => List.mem_append_right _ hy
+  · have hag : ∀ y ∈ rest, y ∈ pick.push (expand g s cfg st.chart it) rest :=
+      fun y hy => hp.mem_push.2 (Or.inr hy)
     have hnew : ∀ x ∈ expand g s cfg st.chart it,
         Pushed { popSt st it rest with chart := it :: st.chart,
-                                       agenda := expand g s cfg st.chart it ++ rest } x :=
-      fun x hx => Or.inl (List.mem_append_left _ hx)
+                                       agenda := pick.push (expand g s cfg st.chart it) rest } x :=
+      fun x hx => Or.inl (hp.mem_push.2 (Or.inl hx))
     have hmono : ∀ x, Pushed st x →
         Pushed { popSt st it rest with chart := it :: st.chart,
-                                       agenda := expand g s cfg st.chart it ++ rest } x :=
+                                       agenda := pick.push (expand g s cfg st.chart it) rest } x :=
       fun x hx => hx.mono hperm hag rfl
     have hlen := ((hok.agenda it hitmem).1 hf).len_pos
     refine ⟨fun x hx => hmono x (h.leaf x hx), ?_, ?_, ?_, ?_⟩
@@ -399,8 +400,9 @@ def Opt1 (g : Grammar) (s : Sent) (cfg : Cfg) (st : St) : Prop :=
   (st.goal = [] ∧ (∀ x ∈ st.popped, x.fin = false) ∧ Hist g s cfg st) ∨
   (∃ t, st.goal = [t] ∧ ∀ d, LicensedRoot g s cfg d → modelScore s cfg d ≤ t.prio)
 
-theorem Opt1.init (g : Grammar) (s : Sent) (cfg : Cfg) : Opt1 g s cfg (Search.init s cfg) :=
-  Or.inl ⟨rfl, fun _ h => (by cases h), Hist.init g s cfg⟩
+theorem Opt1.init {pick : Pick} (hp : PickOK pick) (g : Grammar) (s : Sent) (cfg : Cfg) :
+    Opt1 g s cfg (Search.init pick s cfg) :=
+  Or.inl ⟨rfl, fun _ h => (by cases h), Hist.init hp g s cfg⟩
 
 theorem Opt1.step {pick : Pick} {g : Grammar} {s : Sent} {cfg : Cfg} {st st' : St}
     (hp : PickOK pick) (hu : HeadUniform g) (hs : SentOK s) (hpen : 0 ≤ cfg.penalty)
@@ -430,26 +432,27 @@ theorem Opt1.step {pick : Pick} {g : Grammar} {s : Sent} {cfg : Cfg} {st st' : S
 /-- the three invariants hold in the final state of a 1-best run -/
 theorem Opt1.final {pick : Pick} {g : Grammar} {s : Sent} {cfg : Cfg} (hp : PickOK pick)
     (hu : HeadUniform g) (hs : SentOK s) (hpen : 0 ≤ cfg.penalty) (hn : cfg.nbest = 1) :
-    StOK g s cfg (loop pick g s cfg cfg.maxStep (Search.init s cfg)) ∧
-    PrioOK (loop pick g s cfg cfg.maxStep (Search.init s cfg)) ∧
-    Opt1 g s cfg (loop pick g s cfg cfg.maxStep (Search.init s cfg)) :=
+    StOK g s cfg (loop pick g s cfg cfg.maxStep (Search.init pick s cfg)) ∧
+    PrioOK (loop pick g s cfg cfg.maxStep (Search.init pick s cfg)) ∧
+    Opt1 g s cfg (loop pick g s cfg cfg.maxStep (Search.init pick s cfg)) :=
   loop_inv (pick := pick) (g := g) (s := s) (cfg := cfg)
     (fun st => StOK g s cfg st ∧ PrioOK st ∧ Opt1 g s cfg st)
     (fun _ _ h hstep => ⟨h.1.step hp hstep, h.2.1.step hp hs hpen h.1 hstep,
       h.2.2.step hp hu hs hpen hn h.1 h.2.1 hstep⟩)
-    cfg.maxStep (Search.init s cfg) ⟨StOK.init g s cfg, PrioOK.init s cfg, Opt1.init g s cfg⟩
+    cfg.maxStep (Search.init pick s cfg)
+    ⟨StOK.init hp g s cfg, PrioOK.init pick s cfg, Opt1.init hp g s cfg⟩
 
 theorem sortDesc_nil : sortDesc [] = [] := rfl
 
 theorem sortDesc_singleton (t : Item) : sortDesc [t] = [t] := rfl
 
 /-- a `pick` that returns nothing was given an empty agenda -/
-theorem PickOK.eq_nil {pick : Pick} (hp : PickOK pick) {l : List Item} (h : pick l = none) :
+theorem PickOK.eq_nil {pick : Pick} (hp : PickOK pick) {l : List Item} (h : pick.pop l = none) :
     l = [] := by
   cases l with
   | nil => rfl
   | cons x xs =>
-    obtain ⟨it, rest, e, _⟩ := hp.2 (x :: xs) (by simp)
+    obtain ⟨it, rest, e, _⟩ := hp.2.1 (x :: xs) (by simp)
     rw [e] at h; cases h
 
 end Depccg.SearchProps
